@@ -13,8 +13,8 @@ from collections import Counter
 from . import pool, terms
 
 ROOT = pool.ROOT
-EVID = os.path.join(ROOT, "evidence")
-REPLAYS = os.path.join(ROOT, "replays")
+EVID = os.environ.get("VX_EVID") or os.path.join(ROOT, "evidence")
+REPLAYS = os.environ.get("VX_REPLAYS") or os.path.join(ROOT, "replays")
 KNOWN = os.path.join(ROOT, "known_findings.json")
 
 EXIT_OK, EXIT_VIOLATION, EXIT_MACHINERY = 0, 1, 2
